@@ -235,4 +235,13 @@ def foreign_attrs_directed():
             a = at[i] + at[(i * 5 + 3) % len(at)]
             out.append("<%s%s>x" % (root, a))
             out.append("<%s%s%s><b>y" % (root, at[(i + 7) % len(at)], at[i]))
+    # every adjusted attribute next to its plain namesake, in both orders (one of the two is lost if a builder keys
+    # attributes by local name only)
+    pairs = [("xlink:href", "href"), ("xlink:title", "title"), ("xml:lang", "lang"), ("xml:space", "space"),
+             ("xlink:type", "type"), ("xlink:role", "role"), ("xlink:show", "show"), ("xlink:actuate", "actuate"),
+             ("xlink:arcrole", "arcrole"), ("xmlns:xlink", "xlink")]
+    for root in ("svg", "math", "svg><a", "math><mi", "table><svg"):
+        for q, pl in pairs:
+            out.append("<%s %s=1 %s=2>x" % (root, q, pl))
+            out.append("<%s %s=2 %s=1><b>y" % (root, pl, q))
     return out
